@@ -278,7 +278,14 @@ func (d *database[T, O]) SelectSegments(timeRange timestamp.TimeRange, reopenClo
 	if d.closed.Load() {
 		return nil, nil
 	}
-	segments, err := d.segmentController.selectSegments(timeRange, reopenClosed)
+	segments, pinned, err := d.segmentController.selectSegmentsWithPins(timeRange, reopenClosed)
+	for i, s := range segments {
+		if !pinned[i] {
+			// The caller releases every returned segment; make that a no-op for
+			// the ones a stats peek did not pin.
+			segments[i] = unpinnedSegment[T, O]{segment: s.(*segment[T, O])}
+		}
+	}
 	if err != nil || d.disableRetention {
 		return segments, err
 	}
